@@ -63,11 +63,11 @@ class C16(Prop):
     def model_runs(self, tier):
         if tier == "quick":
             return [{"module": "MC_ClassStyle", "cfg": "ClassStyle_quick.cfg"},
-                    {"module": "MC_ClassStyle", "cfg": "ClassStyle_css.cfg", "export": False},
-                {"module": "MC_ClassStyle", "cfg": "ClassStyle_sim.cfg", "simulate": "num=1000", "depth": 10, "export": False, "timeout": 900}]
+                    {"module": "MC_ClassStyle", "cfg": "ClassStyle_css.cfg", "export": False}]
         return [{"module": "MC_ClassStyle", "cfg": "ClassStyle_thorough.cfg", "export": False},
                 {"module": "MC_ClassStyle", "cfg": "ClassStyle_thorough_gen.cfg"},
-                {"module": "MC_ClassStyle", "cfg": "ClassStyle_css.cfg", "export": False}]
+                {"module": "MC_ClassStyle", "cfg": "ClassStyle_css.cfg", "export": False},
+                {"module": "MC_ClassStyle", "cfg": "ClassStyle_sim.cfg", "simulate": "num=1000", "depth": 10, "export": False, "timeout": 900}]
 
     def nontrivial(self, rec):
         if rec.get("k") == "css":
@@ -82,7 +82,7 @@ class C16(Prop):
     def gens_random(self, tier, rnd):
         gens = []
         toks = ["a", "ab", "a-b", "b", "foo", "foo-x", "foobar", "x_1", "é", "Z9", "b-"]
-        decls = ["x;", "color: red;", "z", "", "a:b;c:d;", " lead;", "w: 1"]
+        decls = ["x;", "color: red;", "z", "", "a:b;c:d;", " lead;", "w: 1", "p; ", "q;\n", "r;\t", ";", " "]
         for _ in range(500 if tier == "quick" else 10000):
             n = rnd.randint(0, 5)
             init = rnd.choice(["", " ", "\t", "  "]).join(rnd.choice(toks) for _ in range(n)) if n else rnd.choice(["", " ", None])
